@@ -331,7 +331,7 @@ enum:
 				case '*':
 					sb.WriteString(rapid.SampledFrom([]string{"", "*", "*b", "a*", "**", "?", "zz"}).Draw(rt, "starfill"))
 				case '?':
-					sb.WriteString(rapid.SampledFrom([]string{"q", "*", "?", "."}).Draw(rt, "onefill"))
+					sb.WriteString(rapid.SampledFrom([]string{"q", "*", "?", ".", "é", "日", "ß"}).Draw(rt, "onefill"))
 				default:
 					sb.WriteRune(r)
 				}
@@ -363,6 +363,29 @@ enum:
 			}
 		}
 		h.Col.Exhaustive("server level: patterns up to length 3 over {a,b,*,?} x a store holding all 20 keys up to length 2 over the same alphabet", complete)
+	}
+	// the same with a multi-byte character in the alphabet ('?' is one character, not one byte)
+	{
+		var keys, pats []string
+		for _, k := range allStrings([]byte{'a', 'E', '*', '?'}, 2)[1:] {
+			keys = append(keys, strings.ReplaceAll(k, "E", "é"))
+		}
+		for _, p := range allStrings([]byte{'a', 'E', '*', '?'}, 3) {
+			pats = append(pats, strings.ReplaceAll(p, "E", "é"))
+		}
+		complete := true
+		for i, pat := range pats {
+			if i%h.NShards != h.Shard {
+				continue
+			}
+			c := c17Server{Pattern: pat, Keys: keys}
+			h.Col.Case(wild(pat), []byte("srvex2\x00"+pat), "server-exhaustive")
+			if !h.Report("c17.server", c, evalC17Server(c)) {
+				complete = false
+				break
+			}
+		}
+		h.Col.Exhaustive("server level: patterns up to length 3 over {a,é,*,?} x a store holding all 20 keys up to length 2 over the same alphabet", complete)
 	}
 
 	// large key spaces (an implementation may take another path there)
